@@ -20,7 +20,8 @@ ASSUMPTIONS = ["relative tolerance 1e-9 on fractions", "proportions are written 
 NT_FLOOR = 0.4
 
 POOL = ["H2O", "NaCl", "CO2", "N2", "O2", "Ar", "CH4", "Ca(OH)2", "C6H12O6", "MgCl2", "Fe2O3", "D2O", "H{1}2O", "U{235}",
-        "He", "SiO2", "Al2(SO4)3", "NH3", "KCl", "Mo", "Ru", "Cl2", "B4C", "Mg", "Cu", "LiH", "O{18}2", "Na{+}", "Zn", "HCl"]
+        "He", "SiO2", "Al2(SO4)3", "NH3", "KCl", "Mo", "Ru", "Cl2", "B4C", "Mg", "Cu", "LiH", "O{18}2", "Na{+}", "Zn", "HCl",
+        "[p]", "[n]", "[e]", "[p]", "[e]"]
 
 prop = st.one_of(st.integers(1, 10 ** 6).map(lambda k: k / 1000.0), st.integers(1, 1000).map(float),
                  st.sampled_from([0.2, 0.3, 78.084, 20.946, 0.934, 0.036, 1.0, 50.0]))
@@ -50,7 +51,8 @@ def material_case(draw):
     return {"kind": "material", "comps": comps, "norm": draw(st.sampled_from(["number", "mass"])),
             "natural": draw(st.booleans()), "form": draw(st.sampled_from(["dict", "string"])),
             "scale": draw(st.sampled_from([1e-3, 0.5, 2.0, 10.0, 1e3, 7.0, 1e-6, 1e-9, 1e-12, 1e9])), "op": op, "extra": extra,
-            "subset": draw(st.lists(st.integers(0, 5), min_size=1, max_size=3, unique=True))}
+            "subset": draw(st.lists(st.integers(0, 5), min_size=1, max_size=3, unique=True)),
+            "numfmt": draw(st.sampled_from(["plain", "plain", "repr", "exp", "Exp"]))}
 
 
 @st.composite
@@ -80,7 +82,7 @@ def formula_mass(formula, natural):
 def _parse_pool(formula):
     """Tiny recursive-descent reader for the curated pool: El, El{A}, El{+}, counts, one level of groups."""
     import re
-    tok = re.findall(r"[A-Z][a-z]?|\{[^}]*\}|\d+|\(|\)", formula)
+    tok = re.findall(r"\[[pne]\]|[A-Z][a-z]?|\{[^}]*\}|\d+|\(|\)", formula)
     pos = [0]
 
     def seq():
@@ -130,8 +132,15 @@ def fractions(props, masses, norm):
     return 100 * x, 100 * X
 
 
-def _fmt(p):
+def _fmt(p, style="plain"):
+    """amount as written into a material string; 'repr' / 'exp' / 'Exp' may use exponent notation (2e-06, 2.5E+01)"""
+    if style == "exp":
+        return f"{float(p):.9e}"
+    if style == "Exp":
+        return f"{float(p):.9E}"
     s = repr(float(p))
+    if style == "repr":
+        return s
     if "e" in s or "E" in s:
         s = f"{p:.6f}".rstrip("0")
     if s.endswith("."):
@@ -139,12 +148,19 @@ def _fmt(p):
     return s
 
 
-def build(comps, norm, natural, form):
+def as_written(comps, form, style):
+    """the amounts the library is given: for a string expression, the numbers their text stands for"""
+    if form == "dict":
+        return [[f, p] for f, p in comps]
+    return [[f, float(_fmt(p, style))] for f, p in comps]
+
+
+def build(comps, norm, natural, form, style="plain"):
     from scinumtools.materials import Material, Norm
     nt = Norm.NUMBER_FRACTION if norm == "number" else Norm.MASS_FRACTION
     if form == "dict":
         return Material({f: p for f, p in comps}, natural=natural, norm_type=nt)
-    return Material(" ".join(f"{_fmt(p)} <{f}>" for f, p in comps), natural=natural, norm_type=nt)
+    return Material(" ".join(f"{_fmt(p, style)} <{f}>" for f, p in comps), natural=natural, norm_type=nt)
 
 
 def read(mat, names):
@@ -167,10 +183,11 @@ def _cmp(v, text, got, exp, what):
 
 def check_material(case, v):
     comps, norm, nat = case["comps"], case["norm"], case["natural"]
-    text = f"Material({case['form']}:{comps!r}, norm={norm}, natural={nat})"
+    style = case.get("numfmt", "plain")
+    text = f"Material({case['form']}:{comps!r}, norm={norm}, natural={nat}, numbers written as {style})"
     try:
-        mat = build(comps, norm, nat, case["form"])
-        final = collections.OrderedDict((f, p) for f, p in comps)
+        mat = build(comps, norm, nat, case["form"], style)
+        final = collections.OrderedDict((f, p) for f, p in as_written(comps, case["form"], style))
         op, extra = case["op"], case["extra"]
         if op in ("add_existing", "add_new"):
             mat.add(extra[0], extra[1])
@@ -216,7 +233,13 @@ def check_material(case, v):
     # scaling invariance
     c = case["scale"]
     try:
-        m2 = build([[f, p * c] for f, p in final.items()], norm, nat, "dict")
+        scaled = [[f, p * c] for f, p in final.items()]
+        if style != "plain" and case["form"] == "string":
+            # the scaled amounts written out again (2e-06 <H2O> ...): repr() is exact
+            m2 = build(scaled, norm, nat, "string", "repr")
+            v.label("exponent_notation_in_string")
+        else:
+            m2 = build(scaled, norm, nat, "dict")
         x2, X2, s2, err = read(m2, names)
     except Exception as e:
         return v.fail("material-raised", f"scaled by {c}: {e!r}")
